@@ -120,6 +120,23 @@ def observe(text):
     return obs
 
 
+def valid_expr_texts():
+    """Every pair and triple of operators, chained without parentheses, and with a leading minus; braces inside
+    expressions; definitions by call: all valid (C02 requires them accepted; here they are compiled, loaded and run)."""
+    out = []
+    ops = ['+', '-', '*', '/', '%', '^', '<', '<=', '>', '>=', '==', '!=', 'and', 'or']
+    for a in ops:
+        for b in ops:
+            out.append('assign v {7 %s 3 %s 2}' % (a, b))
+        out.append('assign v 1 hue {v %s 2 %s v %s 3}' % (a, a, a))   # v = 1: a tower of ^ stays small
+        out.append('define f with p begin return {p %s -p %s (p %s 1)} end print [f 3]' % (a, a, a))
+        out.append('if {-2 %s 5} hue {2 ^ 3 ^ 2 %s 1}' % (a, a))
+        out.append('assign v 2 hue {{v} %s {3 %s {v}} %s ({1})}' % (a, a, a))
+    out += ['hue {{5}}', 'println {2 * {3}}', 'define f with a begin return a end hue {2 * {[f 3]}}', 'define f with a begin print a end define g [f 1]\ng',
+            'define f begin print 1 end define m "f"\nprint m', 'define f begin print 1 end define g [f]\n[g]', 'assign s "f" define f begin print s end f']
+    return out
+
+
 def run(ctx):
     lang.ensure_env()
     rng = ctx.rng
@@ -137,6 +154,11 @@ def run(ctx):
         texts.append(('valid', t))
         for _ in range(3):
             texts.append(('mutation', mutate(rng, t)))
+    # the directed scenarios of the language checks (each kind): valid, so accepted, well-formed and executable
+    for rep in range(3 if ctx.thorough() else 1):
+        for kind in sorted(set(gen_prog.SCENARIO_KINDS)):
+            items = gen_prog.scenario(rng, gen_prog.World.generate(rng), kind)
+            texts.append(('valid', '\n'.join(t for t, _ in items) + '\n'))
     for i in range(20000 if ctx.thorough() else 900):
         texts.append(('soup', prefixed_soup(rng)))
     for i in range(5000 if ctx.thorough() else 300):
@@ -144,18 +166,7 @@ def run(ctx):
     import rulebreakers
     for rule, cname, t in rulebreakers.texts():
         texts.append(('rule:' + rule, t))
-    # every pair and triple of operators, chained without parentheses, and with a leading minus: valid, must be accepted
-    ops = ['+', '-', '*', '/', '%', '^', '<', '<=', '>', '>=', '==', '!=', 'and', 'or']
-    for a in ops:
-        for b in ops:
-            texts.append(('valid-expr', 'assign v {7 %s 3 %s 2}' % (a, b)))
-        texts.append(('valid-expr', 'assign v 1 hue {v %s 2 %s v %s 3}' % (a, a, a)))   # v = 1: a tower of ^ stays small
-        texts.append(('valid-expr', 'define f with p begin return {p %s -p %s (p %s 1)} end print [f 3]' % (a, a, a)))
-        texts.append(('valid-expr', 'if {-2 %s 5} hue {2 ^ 3 ^ 2 %s 1}' % (a, a)))
-        texts.append(('valid-expr', 'assign v 2 hue {{v} %s {3 %s {v}} %s ({1})}' % (a, a, a)))
-    for t in ['hue {{5}}', 'println {2 * {3}}', 'define f with a begin return a end hue {2 * {[f 3]}}', 'define f with a begin print a end define g [f 1]\ng',
-              'define f begin print 1 end define m "f"\nprint m', 'define f begin print 1 end define g [f]\n[g]', 'assign s "f" define f begin print s end f']:
-        texts.append(('valid-expr', t))
+    texts += [('valid-expr', t) for t in valid_expr_texts()]
     for f in common.os.listdir(common.os.path.join(common.VERIF, 'corpus', 'C06')) if common.os.path.isdir(common.os.path.join(common.VERIF, 'corpus', 'C06')) else []:
         texts.insert(0, ('corpus', open(common.os.path.join(common.VERIF, 'corpus', 'C06', f)).read()))
     seen = set()
@@ -179,8 +190,7 @@ def run(ctx):
             ctx.counterexample('C06/compiler-raises-' + o['raises'].split(':')[0].replace('ScriptJob', '').strip(),
                                'compiling %r raises %s' % (t[:120], o['raises']), {'text': t})
             continue
-        if not o['ok'] and kind == 'valid-expr':
-            ctx.counterexample('C06/valid-expression-rejected', 'the valid text %r is rejected: %s' % (t[:160], o['errors'].strip()[:100]), {'text': t})
+        # (that a valid text is accepted is not C06's claim: valid scripts and expressions are judged by C01-C05 / C02)
         if o['ok'] and kind.startswith('rule:'):
             ctx.counterexample('C06/rule-not-enforced-' + kind[5:], 'the text %r breaks the rule `%s` and is accepted' % (t[:160], kind[5:]), {'text': t})
         if not o['ok']:
